@@ -1788,6 +1788,14 @@ impl<'a> Socket<'a> {
                     }
                 };
 
+                // A reset is validated by its sequence number alone (RFC 9293 3.10.7.4,
+                // RFC 5961 3.2): payload that reaches into the window does not make an
+                // RST acceptable whose sequence number lies outside of it.
+                let segment_in_window = segment_in_window
+                    && (repr.control != TcpControl::Rst
+                        || (window_start <= segment_start
+                            && (segment_start < window_end || window_start == window_end)));
+
                 if segment_in_window {
                     let overlap_start = window_start.max(segment_start);
                     let overlap_end = window_end.min(segment_end);
